@@ -35,6 +35,11 @@ def main():
             sh(['rsync', '-a', '--exclude', 'target', '--exclude', '.git', '/repo/', repo + '/'])
             sh(['git', 'init', '-q'], cwd=repo)
             ok_apply = True
+            if c.get('patch'):
+                r0 = sh(['git', 'apply', c['patch']], cwd=repo)
+                if r0.returncode != 0:
+                    print('!! %s: patch does not apply: %s' % (c['name'], r0.stdout[-300:]))
+                    ok_apply = False
             for (f, old, new) in c['edits']:
                 p = os.path.join(repo, f)
                 s = open(p).read()
